@@ -147,6 +147,8 @@ Fixpoint add_node (fuel : nat) (n : tree) (path : str) (wk : list str) (in_stati
                           | None => (child_created n, leaf name)
                           end in
           if negb (str_eqb (skipn 1 path) (t_path c)) then TInvalid else
+          (* fix 20f92b3 (C03-F3): "wildcard keys differ", as for a leaf node *)
+          if negb (is_nil (t_keys c)) && negb (keys_eqb (t_keys c) (wk ++ [name])) then TInvalid else
           match put_value v flag (set_keys c (wk ++ [name])) with
           | TOk c' => TOk (set_catch n1 c')
           | e => e
